@@ -315,8 +315,9 @@ func (t *topLevelDone) after(e *Event) bool {
 // separately and can be told to fail from the k-th write on.
 type sink struct {
 	writes [][]byte
-	all    []byte
-	failAt int // 1-based; 0 = never
+	all    []byte // what was written, plus the separators the driver puts between JSON texts
+	raw    []byte // what was written, nothing else
+	failAt int    // 1-based; 0 = never
 	n      int
 }
 
@@ -328,6 +329,7 @@ func (s *sink) Write(p []byte) (int, error) {
 	c := append([]byte(nil), p...)
 	s.writes = append(s.writes, c)
 	s.all = append(s.all, c...)
+	s.raw = append(s.raw, c...)
 	return len(p), nil
 }
 
@@ -362,6 +364,7 @@ func runEncode(c *Case, tr *Trace, parse bool) {
 		}
 	}
 	tr.Out = bytesToInts(sk.all)
+	tr.Raw = bytesToInts(sk.raw)
 	if c.Fmt == "json" {
 		tr.NumTab = numTabFor(sk.all)
 	}
